@@ -50,7 +50,7 @@ def exec_ojn(scn):
             "level": [1 + v % 9, 5, 20], "genre": v % 11, "song_id": 1000 + v}
     data = encode(lvls, scn["bl0"], meta)
     ftok = decode(data)
-    rec = {"id": scn["id"] + "/read", "op": "read", "cls": "ojn.read", "exc": "", "file": ftok, "charts": [], "meta": {}}
+    rec = {"id": scn["id"] + "/read", "op": "read", "cls": "ojn.read", "exc": "", "file": ftok, "charts": [], "meta": {}, "slack": 0}
     try:
         if v % 4 == 1:
             fd, path = tempfile.mkstemp(suffix=".ojn")
@@ -106,3 +106,57 @@ def random_scenarios(n):
             lvl.append({"m": m, "ch": 1, "n": n_, "evs": [{"i": i_, "kind": 0, "vol": 0, "pan": 0, "bl": r.choice([25000, 40000, 50000, 75000])}]})
         out.append({"id": f"r{i}", "lvl": lvl, "bl0": r.choice([50000, 30000]), "variant": i})
     return out
+
+
+def bundled_scenarios(tier):
+    """prefixes (measures < K) of the repository's bundled .ojn files, decoded and re-encoded with the harness codec"""
+    import glob
+    import os
+    from harness.common import REPO
+    out = []
+    for f in sorted(glob.glob(os.path.join(REPO, "rsc", "maps", "o2jam", "*.ojn"))):
+        with open(f, "rb") as fh:
+            tok = decode(fh.read())
+        if any(p["ch"] == 0 for lvl in tok["lvls"] for p in lvl):
+            continue                                   # measure-fraction packages: outside the property's domain
+        for K in ((6,) if tier == "quick" else (4, 10, 24)):
+            lvls = []
+            for lvl in tok["lvls"]:
+                keep = [p for p in lvl if p["m"] < K and (p["ch"] == 1 or 2 <= p["ch"] <= 8)]
+                # drop long-note heads whose tail lies beyond the cut (and tails without head)
+                open_ = {}
+                fixed = []
+                for p in sorted(keep, key=lambda p: (p["m"], p["ch"])):
+                    evs = []
+                    for e in p["evs"]:
+                        if 2 <= p["ch"] <= 8 and e["kind"] == 2:
+                            open_[p["ch"]] = (len(fixed), len(evs))
+                        elif 2 <= p["ch"] <= 8 and e["kind"] == 3:
+                            if p["ch"] not in open_:
+                                continue
+                            del open_[p["ch"]]
+                        evs.append(dict(e))
+                    fixed.append(dict(p, evs=evs))
+                for ch, (pi, ei) in open_.items():
+                    fixed[pi]["evs"][ei]["kind"] = 0       # an unclosed head becomes a plain note
+                lvls.append(fixed)
+            out.append({"id": f"b.{os.path.basename(f)}.{K}", "lvls": lvls, "bl0": tok["bl0"], "slack": 2 * K + 2,
+                        "meta": {"title": tok["title"], "artist": tok["artist"], "creator": tok["creator"], "level": tok["level"][:3],
+                                 "genre": tok["genre"], "song_id": tok["song_id"], "ojm": tok["ojm_file"]}})
+    return out
+
+
+def exec_bundled(scn):
+    from reamber.o2jam.O2JMapSet import O2JMapSet
+    data = encode(scn["lvls"], scn["bl0"], scn["meta"])
+    rec = {"id": scn["id"] + "/read", "op": "read", "cls": "ojn.read.bundled", "exc": "", "file": decode(data), "charts": [], "meta": {},
+           "slack": scn["slack"]}
+    try:
+        ms = O2JMapSet.read(data)
+        rec["charts"] = [proj_map(m) for m in ms.maps]
+        rec["meta"] = proj_meta(ms)
+    except ProjectionError as e:
+        rec["exc"] = "Projection:" + str(e)
+    except Exception as e:
+        rec["exc"] = exc_name(e)
+    return [rec]
